@@ -80,6 +80,15 @@ def gen(run):
         expect = "ok" if (ign or not (bad_first or inconsistent)) else "fail-removed"
         cases.append({"tool": "max", "opts": opts, "data": data, "dims": (w, rows, 3), "expect": expect, "features": ["max", "max-header"],
                       "skip": s, "label": f"max hdr w={w} r={r} s={s} i={ign} first={first} size={size}"})
+    # MAX cube 3: newsroom header x skip x geometry (the -w/-r options must be ignored, -s honoured)
+    for d in core.cube(run, [("colsb", [1, 2, 3, 5]), ("rows", [1, 2, 5]), ("s", [None, 0, 1, 2, 4, 7]), ("w", [None, 16]), ("r", [None, 3]), ("mode", ["bw", "rb2"])]):
+        body = C.body_lin(d["colsb"] * d["rows"], 3, 1)
+        s_ = d["s"]
+        junk = bytes(((i * 5 + 2) & 255) for i in range(s_ or 0))
+        data = junk + F.newsroom_file(d["colsb"], d["rows"], body)
+        opts = F.MAX_FLAGS[d["mode"]] + ["-newsroom"] + ([] if s_ is None else ["-s", str(s_)]) + (["-w", str(d["w"])] if d["w"] else []) + (["-r", str(d["r"])] if d["r"] else [])
+        cases.append({"tool": "max", "opts": opts, "data": data, "dims": (d["colsb"] * 8, d["rows"], 3), "expect": "ok", "features": ["max", "newsroom"], "skip": s_,
+                      "label": f"max newsroom cols={d['colsb']} rows={d['rows']} s={s_} w={d['w']} r={d['r']}"})
     # PIX: every square size in the bound
     for d in core.cube(run, [("side", range(2, 36 if quick else 66, 2))]):
         side = d["side"]
